@@ -137,9 +137,9 @@ class Must:
         out = self._expand_phi(out, _seen if _seen is not None else {p}, at=p)
         extra = []
         for a in out:
-            b = canon_okness(a)
-            if b is not None and b not in out and b not in extra:
-                extra.append(b)
+            for b in (canon_okness(a), canon_arith(a)):
+                if b is not None and b not in out and b not in extra:
+                    extra.append(b)
         return out + extra
 
     def _expand_phi(self, atoms, seen, at=None, def_facts=True):
@@ -203,6 +203,14 @@ class Must:
     def discr_names(self, term_op, vals):
         """Map discriminant values to variant names using type info where possible."""
         return None
+
+
+def canon_arith(a):
+    """`a.checked_sub(b)` is Some exactly when a >= b (unsigned): the option test is also stated as a comparison."""
+    if a[0] in ("ok", "notok") and isinstance(a[1], tuple) and a[1] and a[1][0] == "call" and a[1][1] == "checked_sub" and len(a[1][2]) == 2:
+        x, y = a[1][2]
+        return ("cmp", "Ge" if a[0] == "ok" else "Lt", x, y)
+    return None
 
 
 def canon_okness(a):
@@ -307,8 +315,13 @@ def normalise_atom(m, term, dty, vals, comp, op=None):
         if truth is None:
             return []
         return bool_atoms(term, truth)
-    # ---- integers
-    return [("in", term, frozenset(vals), comp)]
+    # ---- integers: a test against a single constant is also stated as a comparison (so that `match x { 0 => .. }` and
+    # `if x == 0` give the same fact)
+    out = [("in", term, frozenset(vals), comp)]
+    if len(vals) == 1:
+        v = next(iter(vals))
+        out.append(("cmp", "Ne" if comp else "Eq", term, ("const", v, dty or "usize")))
+    return out
 
 
 def bool_atoms(term, truth):
